@@ -29,6 +29,7 @@ def gen_cases(tier, seed):
     n = 40 if tier == 'quick' else 600
     cases = [{'kind': rng.choice(['list', 'dict', 'namespace', 'value', 'box', 'managed', 'concurrent']), 'ops': rng.choice([60, 150, 300]),
               'agents': rng.choice([1, 2]), 'seed': rng.randrange(1 << 30)} for _ in range(n)]
+    cases += [{'kind': 'one-typeid-two-classes', 'first': f, 'ops': 0, 'agents': 1, 'seed': i} for i, f in enumerate(['counter', 'stack'])]
     # proxy lifetimes interleaved with calls (always present)
     cases += [{'kind': 'lifetimes', 'ops': rng.choice([150, 300]), 'agents': 1 + i % 2, 'seed': rng.randrange(1 << 30)} for i in range(4 if tier == 'quick' else 60)]
     return cases
@@ -341,6 +342,30 @@ def run_case(case):
                             viol.append({'mech': 'proxy/managed-value-is-a-copy', 'msg': f'managed_dict mutations not visible in the server: {snap}'})
                             return
                         obs['operations'] += 18
+                elif kind == 'one-typeid-two-classes':
+                    # a typeid registered with a factory: two hosted objects of different classes (different methods) behind the same typeid,
+                    # met by the harness process in one order and by the agent in the other
+                    first = case['first']
+                    order = ['counter', 'stack'] if first == 'counter' else ['stack', 'counter']
+                    for k_ in order:
+                        reg[k_] = manager.Gadget(k_)
+                    for k_ in reversed(order):
+                        agent(1, ('load', k_, pickle.dumps(reg[k_])))
+                    loc = {'counter': mgrtargets.GCounter(), 'stack': mgrtargets.GStack()}
+                    script = [('counter', 'incr', [2]), ('stack', 'push', ['a']), ('stack', 'push', [('b', 1)]), ('counter', 'value', []), ('stack', 'pop', []),
+                              ('stack', 'pop', []), ('stack', 'pop', []), ('counter', 'incr', []), ('stack', 'value', [])]
+                    for actor in (0, 1, 0):
+                        for h, method, args in script:
+                            exp = apply_local(loc[h], method, args, None)
+                            got = call(actor, h, method, args)
+                            obs['operations'] += 1
+                            if exp[0] == 'exc':
+                                obs['raising_operations'] += 1
+                            if not same(got, exp, method):
+                                viol.append({'mech': 'proxy/methods-of-another-object-of-the-same-typeid', 'msg': f'typeid Gadget registered with a factory; objects created in the order {order}: '
+                                             f'{h}.{method}{tuple(args)!r} via actor {actor} gave {str(got)[:250]}, direct call gives {str(exp)[:150]}'})
+                                return
+                    obs['same_typeid_pairs'] = obs.get('same_typeid_pairs', 0) + 1
                 elif kind == 'lifetimes':
                     # proxies come and go while calls continue: a process (one thread) lets go of every proxy it holds of this manager and later
                     # gets a new one; a copy of a proxy is released while the original stays in use
@@ -479,7 +504,7 @@ def run_case(case):
     except watch.Inconclusive as e:
         return {'violations': viol, 'obs': obs, 'inconclusive': str(e), 'exit_after': True}
     nontrivial = obs['raising_operations'] > 0 and obs['ops_via_agents'] > 0
-    return {'violations': viol[:3], 'obs': obs, 'nontrivial': nontrivial or kind in ('managed', 'concurrent', 'lifetimes'), 'sig': hash((kind, case['seed'])) & 0xFFFFFFFFFFFF, 'exit_after': True,
+    return {'violations': viol[:3], 'obs': obs, 'nontrivial': nontrivial or kind in ('managed', 'concurrent', 'lifetimes', 'one-typeid-two-classes'), 'sig': hash((kind, case['seed'])) & 0xFFFFFFFFFFFF, 'exit_after': True,
             'sample': {'kind': kind, 'agents': case['agents'], 'operations': obs['operations'], 'raising': obs['raising_operations'], 'via_agents': obs['ops_via_agents'],
                        'managed_mutations': obs['managed_mutations'], 'concurrent_ops': obs['concurrent_ops']}}
 
@@ -490,4 +515,4 @@ def decide_inconclusive(obs, results, cases):
     return None
 
 
-RULE = RULE + '; str() and list iteration through proxies; the same hosted list handed out twice, the newer proxy dropped; proxy lifetimes interleaved with calls: a process (one thread) releases its last proxy of the manager and receives a new one, a pickled / copy.copy twin is released while the original stays in use, in the harness process and in agents; in-place operators (p *= 2, p += [..]) must leave the name bound to the proxy; a hosted method that raises SystemExit'
+RULE = RULE + '; str() and list iteration through proxies; the same hosted list handed out twice, the newer proxy dropped; proxy lifetimes interleaved with calls: a process (one thread) releases its last proxy of the manager and receives a new one, a pickled / copy.copy twin is released while the original stays in use, in the harness process and in agents; in-place operators (p *= 2, p += [..]) must leave the name bound to the proxy; a hosted method that raises SystemExit; one typeid registered with a factory that yields objects of two classes, met in opposite orders by two processes'
